@@ -2,6 +2,7 @@ package rules
 
 import (
 	"fmt"
+	"go/constant"
 	"go/token"
 	"go/types"
 	"os"
@@ -1320,4 +1321,120 @@ func ruleC10PrefixSlices(c *Ctx) {
 	if n == 0 {
 		c.R.OK(rule, "none", "", "no slice expression in the package is bounded by the length of another slice")
 	}
+}
+
+func init() {
+	p := Properties["C10"]
+	p.Rules = append(p.Rules, Rule{"C10/constant-index-guarded", ruleC10ConstantIndex})
+}
+
+// s[k] with a constant k panics when s has at most k elements. Every such access to a string or slice in the
+// package is preceded, on every path, by a test that implies len(s) > k (a length comparison, or s != "" for
+// k = 0). In `len(s) > 1 && s[0] == '0'` the order of the operands is what keeps the access safe.
+func ruleC10ConstantIndex(c *Ctx) {
+	const rule = "C10/constant-index-guarded"
+	same := func(a, b ssa.Value) bool { return a == b || sharesSource(a, b) || sameFieldLoad(a, b) }
+	n := 0
+	perFn := map[*ssa.Function]int{}
+	for _, fn := range c.P.Funcs {
+		if !c.P.InPkg(fn) || fn.Synthetic != "" {
+			continue
+		}
+		core.EachInstr(fn, func(i ssa.Instruction) {
+			var x, idx ssa.Value
+			switch a := i.(type) {
+			case *ssa.Lookup:
+				if b, ok := a.X.Type().Underlying().(*types.Basic); ok && b.Info()&types.IsString != 0 {
+					x, idx = a.X, a.Index
+				}
+			case *ssa.Index:
+				if b, ok := a.X.Type().Underlying().(*types.Basic); ok && b.Info()&types.IsString != 0 {
+					x, idx = a.X, a.Index
+				}
+			case *ssa.IndexAddr:
+				if _, ok := a.X.Type().Underlying().(*types.Slice); ok {
+					x, idx = a.X, a.Index
+				}
+			}
+			if x == nil {
+				return
+			}
+			kc, ok := idx.(*ssa.Const)
+			if !ok || kc.Value == nil || kc.Value.Kind() != constant.Int {
+				return
+			}
+			k, _ := constant.Int64Val(kc.Value)
+			// a freshly built slice of known length
+			for _, src := range traceSources(x) {
+				switch s := src.(type) {
+				case *ssa.Slice:
+					if al, ok := s.X.(*ssa.Alloc); ok {
+						if arr, ok := al.Type().Underlying().(*types.Pointer).Elem().Underlying().(*types.Array); ok && arr.Len() > k {
+							return
+						}
+					}
+				case *ssa.MakeSlice:
+					if lc, ok := s.Len.(*ssa.Const); ok && lc.Value != nil {
+						if l, _ := constant.Int64Val(lc.Value); l > k {
+							return
+						}
+					}
+				case *ssa.Call:
+					if key := core.CalleeKey(&s.Call); (key == "strings.Split" || key == "strings.SplitN" || key == "strings.Fields" && false) && k == 0 {
+						return // Split returns at least one element
+					}
+				}
+			}
+			n++
+			perFn[fn]++
+			guarded := false
+			for _, g := range guardsOf(i.(ssa.Instruction)) {
+				bo, ok := g.Cond.(*ssa.BinOp)
+				if !ok {
+					continue
+				}
+				op := bo.Op
+				if !g.Pol {
+					op = map[token.Token]token.Token{token.LSS: token.GEQ, token.GTR: token.LEQ, token.LEQ: token.GTR, token.GEQ: token.LSS, token.EQL: token.NEQ, token.NEQ: token.EQL}[op]
+				}
+				// s != "" (k = 0)
+				if k == 0 && op == token.NEQ {
+					for _, pair := range [][2]ssa.Value{{bo.X, bo.Y}, {bo.Y, bo.X}} {
+						if s, ok := constString(pair[1]); ok && s == "" && same(pair[0], x) {
+							guarded = true
+						}
+					}
+				}
+				// len(s) op c  /  c op len(s)
+				var lenSide, other ssa.Value = bo.X, bo.Y
+				if call, ok := bo.Y.(*ssa.Call); ok && core.CalleeKey(&call.Call) == "builtin.len" {
+					lenSide, other = bo.Y, bo.X
+					op = map[token.Token]token.Token{token.LSS: token.GTR, token.GTR: token.LSS, token.LEQ: token.GEQ, token.GEQ: token.LEQ, token.EQL: token.EQL, token.NEQ: token.NEQ}[op]
+				}
+				lc, ok := lenSide.(*ssa.Call)
+				if !ok || core.CalleeKey(&lc.Call) != "builtin.len" || !same(lc.Call.Args[0], x) {
+					continue
+				}
+				oc, ok := other.(*ssa.Const)
+				if !ok || oc.Value == nil || oc.Value.Kind() != constant.Int {
+					continue
+				}
+				cv, _ := constant.Int64Val(oc.Value)
+				// now: len(s) op cv holds
+				switch op {
+				case token.GTR:
+					guarded = guarded || cv >= k
+				case token.GEQ:
+					guarded = guarded || cv >= k+1
+				case token.EQL:
+					guarded = guarded || cv >= k+1
+				case token.NEQ:
+					guarded = guarded || (cv == 0 && k == 0)
+				}
+			}
+			c.R.Check(guarded, rule, fmt.Sprintf("%s:index#%d", core.FuncName(fn), perFn[fn]), c.pos(i.(ssa.Instruction)), fmt.Sprintf("element %d is read only where the length is known to exceed %d", k, k),
+				fmt.Sprintf("element %d of a string or slice is read without a preceding test that it has more than %d elements (for instance the operands of `len(s) > 1 && s[0] == '0'` the other way round): the access panics with index out of range for a shorter value, e.g. an empty JSON Pointer segment", k, k))
+		})
+	}
+	c.R.Floor(rule, "constant-index accesses to strings and slices", n, 4)
 }
